@@ -1005,11 +1005,22 @@ class C08Executor(readfile.ReadFileExecutor):
             return self.havoc_call(st, "setattr", args, node)
         return [(s_, NONE) for s_ in self.store_attr(st, args[0], nm, args[2], node)]
 
+    @staticmethod
+    def _reversed_seq(q):
+        return VSeq(q.length, lambda i, q=q: q.elem(q.length - 1 - i), q.ekind, q.is_bytes, tag=("reversed", q.tag))
+
     def b_reversed(self, st, args, kwargs, node):
         if args and isinstance(args[0], VSeq):
-            q = args[0]
-            return [(st, VSeq(q.length, lambda i, q=q: q.elem(q.length - 1 - i), q.ekind, q.is_bytes, tag=("reversed", q.tag)))]
+            return [(st, self._reversed_seq(args[0]))]
         return super().b_reversed(st, args, kwargs, node)
+
+    def get_slice(self, st, base, sl, node):
+        # seq[::-1] is reversed(seq)
+        if isinstance(base, VSeq) and sl.lower is None and sl.upper is None and sl.step is not None:
+            r = self.ev(sl.step, st)
+            if len(r) == 1 and isinstance(r[0][1], VInt) and r[0][1].const() == -1:
+                return [(r[0][0], self._reversed_seq(base))]
+        return super().get_slice(st, base, sl, node)
 
     def b_next(self, st, args, kwargs, node):
         # next((True for x in seq if cond(x)), False)  ==  any(cond(x) for x in seq)
